@@ -263,7 +263,7 @@ func evalNewJidPath(w *World, fn *ssa.Function, path []ssa.Instruction, ret *ssa
 	pathEdges(path, func(b *ssa.BasicBlock, succ int) {
 		if c, truth, ok := edgeAssertion(b, succ); ok {
 			if curEdgeIdx >= 0 {
-				c = valueOnPath(rvI(c, curEdgeIdx), path)
+				c = resolveOn(c, curEdgeIdx, path)
 			}
 			visit(c, truth, 0)
 		}
